@@ -2,6 +2,7 @@ package main
 
 import (
 	"fmt"
+	"go/token"
 	"strings"
 
 	"golang.org/x/tools/go/ssa"
@@ -27,6 +28,7 @@ func runC14(c *Ctx) {
 	L, P := c.L, c.P
 	L.Rule("R-C14-RECHECK", "sweep removes only keys whose current expiration is non-zero and not after now", 1)
 	L.Rule("R-C14-LAG", "cleanupBucket = storageBucket-1; sweep range and cursor under the lock; one bucket function for add/update/del; every cursor writer uses cleanupBucket", 7)
+	L.Rule("R-C14-FRONTIER", "eventual reclamation, structural part: add/update never file a key in a bucket at or behind the sweep cursor (storageBucket(expiration) is replaced by lastCleanedBucketNum+1 when it is not beyond it) - finding F6", 2)
 	L.Rule("R-C14-INDEX", "map mutation and expiry-index call paired on every path (shared with C13)", 3)
 	L.Rule("R-C14-BUCKETS", "expirationMap.add/update/del file key → conflict in m.buckets[storageBucket(expiration)], old bucket first, under the index lock", 3)
 	L.Rule("R-C14-ARMS", "a buffered cost update can only adjust a tracked key (policy.Update on the itemUpdate arm, never Add): a key reclaimed by the sweep is not re-admitted behind its back and evicted a second time", 3)
@@ -151,6 +153,12 @@ func runC14(c *Ctx) {
 				}
 				n++
 				if !allowed[tb.T(key).String()] {
+					// filing side (add, update's new expiration): the clamped number is a bucket of that expiration too
+					if f.name != "del" {
+						if k, _ := filingBucket(fn, tb, key, f.exps[len(f.exps)-1]); k != "" {
+							return
+						}
+					}
 					ok = false
 					L.Fail("R-C14-LAG", "expirationMap."+f.name+"#bucket", "the index is addressed with "+tb.T(key).String()+", not storageBucket(expiration) of the expiration passed in", in.Pos())
 				}
@@ -158,6 +166,62 @@ func runC14(c *Ctx) {
 			if ok {
 				L.Check(n > 0, "R-C14-LAG", "expirationMap."+f.name+"#bucket", fmt.Sprintf("%d index accesses, all under storageBucket(expiration)", n), "no index access found", fn.Pos())
 			}
+		}
+	})
+
+	// ---- R-C14-FRONTIER (finding F6): a key is never filed behind the sweep cursor
+	c.Group("R-C14-FRONTIER", "filing frontier", func() {
+		for _, f := range []struct{ name, exp string }{{"add", "p[3]"}, {"update", "p[4]"}} {
+			fn := P.Fn("ristretto", "expirationMap", f.name)
+			lc := newLockCtx(P, "ristretto")
+			tb := lc.tb(fn)
+			cons := "expirationMap." + f.name + "#frontier"
+			n := 0
+			bad := ""
+			var pos token.Pos
+			eachInstr(fn, func(in ssa.Instruction) {
+				mu, ok := in.(*ssa.MapUpdate)
+				if !ok || recvName(mu.Map.Type()) != "bucket" {
+					return
+				}
+				mt := tb.T(mu.Map).String()
+				found := false
+				for _, lk := range lookupsOf(fn, tb, "fld[buckets](p[0])") {
+					if !strings.Contains(mt, tb.T(lk).String()) {
+						continue
+					}
+					found = true
+					n++
+					k, why := filingBucket(fn, tb, lk.Index, f.exp)
+					switch {
+					case k == "plain":
+						bad = "files the key under storageBucket(expiration) even when that bucket is already behind the sweep cursor (expiration <= lastCleanedBucketNum's window): the sweep only visits buckets after the cursor, so an item applied late (it expired while waiting in the write buffer) is never reclaimed, its cost stays accounted and OnEvict/OnExit never fire"
+						pos = mu.Pos()
+					case k == "":
+						bad = why
+						pos = mu.Pos()
+					}
+					if !lc.At(lk).HasClass("expirationMap.RWMutex", "W") {
+						bad = "the sweep cursor is compared without the index lock"
+						pos = lk.Pos()
+					}
+				}
+				if !found {
+					bad = "the bucket filed into (" + mt + ") is not looked up in m.buckets"
+					pos = mu.Pos()
+				}
+			})
+			for _, acc := range fieldAccessesIn(fn, "expirationMap", "lastCleanedBucketNum") {
+				if !lc.At(acc).HasClass("expirationMap.RWMutex", "W") {
+					bad = "the sweep cursor is read outside the critical section that files the key: a sweep between the comparison and the filing moves the cursor past the chosen bucket"
+					pos = acc.Pos()
+				}
+			}
+			if n == 0 && bad == "" {
+				L.Undecided("R-C14-FRONTIER", cons, "no filing found", fn.Pos())
+				continue
+			}
+			L.Check(bad == "", "R-C14-FRONTIER", cons, "the bucket number is storageBucket(expiration), replaced by lastCleanedBucketNum+1 exactly when it is not beyond the sweep cursor (compared under the index lock)", bad, pos)
 		}
 	})
 
@@ -279,6 +343,75 @@ func runC14(c *Ctx) {
 // filed in bucket storageBucket(expiration) under (key → conflict); update removes it from the old
 // bucket BEFORE filing it in the new one (same-bucket refresh must not erase it); del removes it from
 // the bucket of the expiration it was filed under. Shared by C14, C13 and C07.
+
+// filingBucket classifies the bucket number n under which a key with expiration term exp is filed:
+//   plain   - storageBucket(exp)
+//   clamped - storageBucket(exp), replaced by lastCleanedBucketNum+1 exactly when it is <= lastCleanedBucketNum
+//             (φ governed by that comparison, or the builtin max of the two)
+// anything else is not a bucket number of that expiration.
+func filingBucket(fn *ssa.Function, tb *TB, n ssa.Value, exp string) (kind string, why string) {
+	sb := "call[storageBucket](" + exp + ")"
+	next := "add(c[1],fld[lastCleanedBucketNum](p[0]))"
+	t := tb.T(n).String()
+	if t == sb {
+		return "plain", ""
+	}
+	if t == "call[max]("+sb+","+next+")" || t == "call[max]("+next+","+sb+")" {
+		return "clamped", ""
+	}
+	ph, ok := n.(*ssa.Phi)
+	if !ok || len(ph.Edges) != 2 {
+		return "", "the bucket number is " + t
+	}
+	swept := edgesWhere(fn, tb, "le("+sb+",fld[lastCleanedBucketNum](p[0]))", nil, true)
+	notSwept := edgesWhere(fn, tb, "le("+sb+",fld[lastCleanedBucketNum](p[0]))", nil, false)
+	if len(swept) == 0 {
+		return "", "the bucket number is " + t + " and no comparison `storageBucket(expiration) <= lastCleanedBucketNum` governs it"
+	}
+	b := ph.Block()
+	seenSB, seenNext := false, false
+	for i, e := range ph.Edges {
+		et := tb.T(e).String()
+		pred := b.Preds[i]
+		// the edge by which control reaches the φ through pred: either pred→b itself is a branch edge, or
+		// pred is entered by exactly one branch edge
+		onSide := func(set map[Edge]bool) bool {
+			for k, s := range pred.Succs {
+				if s == b && set[Edge{pred, k}] {
+					return true
+				}
+			}
+			if len(pred.Preds) == 1 {
+				pp := pred.Preds[0]
+				for k, s := range pp.Succs {
+					if s == pred && set[Edge{pp, k}] {
+						return true
+					}
+				}
+			}
+			return false
+		}
+		switch et {
+		case sb:
+			if !onSide(notSwept) {
+				return "", "storageBucket(expiration) is kept on a path that does not establish it is beyond the sweep cursor"
+			}
+			seenSB = true
+		case next:
+			if !onSide(swept) {
+				return "", "lastCleanedBucketNum+1 is used on a path that does not establish the expiration's own bucket was already swept"
+			}
+			seenNext = true
+		default:
+			return "", "the bucket number can be " + et
+		}
+	}
+	if seenSB && seenNext {
+		return "clamped", ""
+	}
+	return "", "the bucket number is " + t
+}
+
 func bucketIndexRule(c *Ctx, ruleID string) {
 	L, P := c.L, c.P
 	type spec struct {
@@ -313,19 +446,28 @@ func bucketIndexRule(c *Ctx, ruleID string) {
 					if tb.T(x.Key).String() != "p[1]" || tb.T(x.Value).String() != "p[2]" {
 						problems = append(problems, "files "+tb.T(x.Key).String()+" → "+tb.T(x.Value).String()+" instead of key → conflict")
 					}
-					if !strings.Contains(mt, bucketOf(sp.newExp)) {
-						problems = append(problems, "files the key in bucket "+mt+", not in m.buckets[storageBucket(new expiration)]")
+					// the bucket filed into: looked up in m.buckets under the filing number of the new
+					// expiration (its own bucket, or the next one to be swept when that one is already behind
+					// the sweep cursor), or freshly made and stored under that same number
+					var num ssa.Value
+					for _, lk := range lookupsOf(fn, tb, "fld[buckets](p[0])") {
+						if k, _ := filingBucket(fn, tb, lk.Index, sp.newExp); k != "" && strings.Contains(mt, tb.T(lk).String()) {
+							num = lk.Index
+						}
 					}
-					if strings.Contains(mt, "make[") {
+					if num == nil {
+						problems = append(problems, "files the key in bucket "+mt+", not in m.buckets[storageBucket(new expiration)] (or the next bucket to be swept)")
+					}
+					if strings.Contains(mt, "make[") && num != nil {
 						// a fresh bucket must itself be stored in the index under the same number
 						stored := false
 						for _, mu := range mapUpdatesOf(fn, tb, "fld[buckets](p[0])") {
-							if tb.T(mu.Key).String() == "call[storageBucket]("+sp.newExp+")" && strings.HasPrefix(tb.T(mu.Value).String(), "make[") {
+							if tb.T(mu.Key).String() == tb.T(num).String() && strings.HasPrefix(tb.T(mu.Value).String(), "make[") {
 								stored = true
 							}
 						}
 						if !stored {
-							problems = append(problems, "a freshly made bucket is not stored in m.buckets under storageBucket(new expiration)")
+							problems = append(problems, "a freshly made bucket is not stored in m.buckets under the number it was looked up with")
 						}
 					}
 					if insert != nil {
